@@ -558,6 +558,94 @@ func init() {
 				}
 			}
 		}
+		// stress shapes: deep nesting with inflated counts, very many tiny parts, and short hex strings for every scanner
+		wkbAll := map[string]func([]byte) error{
+			"wkb.Unmarshal":  func(b []byte) error { _, err := wkb.Unmarshal(b); return err },
+			"ewkb.Unmarshal": func(b []byte) error { _, _, err := ewkb.Unmarshal(b); return err },
+			"wkb.Decoder":    func(b []byte) error { _, err := wkb.NewDecoder(bytes.NewReader(b)).Decode(); return err },
+			"ewkb.Decoder":   func(b []byte) error { _, _, err := ewkb.NewDecoder(bytes.NewReader(b)).Decode(); return err },
+			"wkb.Scanner":    func(b []byte) error { return wkb.Scanner(nil).Scan(b) },
+			"ewkb.Scanner":   func(b []byte) error { return ewkb.Scanner(nil).Scan(b) },
+			"ewkb.ScannerPrefixSRID": func(b []byte) error { return ewkb.ScannerPrefixSRID(nil).Scan(b) },
+			"ewkb.ScannerPrefixSRID(*Point)": func(b []byte) error {
+				var p orb.Point
+				return ewkb.ScannerPrefixSRID(&p).Scan(b)
+			},
+			"wkb.Scanner(*MultiPolygon)": func(b []byte) error {
+				var p orb.MultiPolygon
+				return wkb.Scanner(&p).Scan(b)
+			},
+			"ewkb.Scanner(*Collection)": func(b []byte) error {
+				var p orb.Collection
+				return ewkb.Scanner(&p).Scan(b)
+			},
+		}
+		wktAll := map[string]func([]byte) error{
+			"wkt.Unmarshal":             func(b []byte) error { _, err := wkt.Unmarshal(string(b)); return err },
+			"wkt.UnmarshalPolygon":      func(b []byte) error { _, err := wkt.UnmarshalPolygon(string(b)); return err },
+			"wkt.UnmarshalMultiPolygon": func(b []byte) error { _, err := wkt.UnmarshalMultiPolygon(string(b)); return err },
+			"wkt.UnmarshalCollection":   func(b []byte) error { _, err := wkt.UnmarshalCollection(string(b)); return err },
+		}
+		for _, depth := range []int{3, 30, 200, 400} { // collection (also multi) headers nested, each claiming 2^32-1 (2^31, 5) members
+			for _, le := range []bool{true, false} {
+				for _, typ := range []uint32{7, 6, 5, 4, 7 | 0x20000000} {
+					for _, cnt := range []uint32{0xffffffff, 0x80000000, 5} {
+						var b []byte
+						for d := 0; d < depth; d++ {
+							hdr := make([]byte, 9)
+							if le {
+								hdr[0] = 1
+								binary.LittleEndian.PutUint32(hdr[1:], typ)
+								binary.LittleEndian.PutUint32(hdr[5:], cnt)
+							} else {
+								binary.BigEndian.PutUint32(hdr[1:], typ)
+								binary.BigEndian.PutUint32(hdr[5:], cnt)
+							}
+							if typ&0x20000000 != 0 {
+								hdr = append(hdr[:5], append([]byte{0xe6, 0x10, 0, 0}, hdr[5:]...)...)
+							}
+							b = append(b, hdr...)
+						}
+						c05Raw(c, "wkb(nested)", b, wkbAll)
+					}
+				}
+			}
+		}
+		for _, parts := range []int{300, 3000} { // very many tiny parts
+			ring, rings := "(0 0,1 1)", make([]string, 0, parts)
+			for i := 0; i < parts; i++ {
+				rings = append(rings, ring)
+			}
+			all := strings.Join(rings, ",")
+			c05Raw(c, "wkt(parts)", []byte("POLYGON("+all+")"), wktAll)
+			c05Raw(c, "wkt(parts)", []byte("MULTILINESTRING("+all+")"), wktAll)
+			c05Raw(c, "wkt(parts)", []byte("MULTIPOLYGON(("+strings.Join(rings, "),(")+"))"), wktAll)
+			pts := make([]string, 0, parts)
+			for i := 0; i < parts; i++ {
+				pts = append(pts, "POINT(1 2)")
+			}
+			c05Raw(c, "wkt(parts)", []byte("GEOMETRYCOLLECTION("+strings.Join(pts, ",")+")"), wktAll)
+			// the same polygon in WKB and GeoJSON
+			poly := orb.Polygon{}
+			for i := 0; i < parts; i++ {
+				poly = append(poly, orb.Ring{{0, 0}, {1, 1}})
+			}
+			if b, err := wkb.Marshal(poly); err == nil {
+				c05Raw(c, "wkb(parts)", b, wkbAll)
+			}
+			if b, err := geojson.NewGeometry(poly).MarshalJSON(); err == nil {
+				c05Raw(c, "geojson(parts)", b, c05JSONDecs)
+			}
+		}
+		for n := 0; n <= 14; n++ { // hex text of every short length, with and without the \x marker
+			for _, pre := range []string{"", "\\x", "\\X"} {
+				for _, digits := range []string{"e6100000010100000000", "00000000000000000000", "0101000020e6100000ff", "zz"} {
+					if n <= len(digits) {
+						c05Raw(c, "wkb(hex)", []byte(pre+digits[:n]), wkbAll)
+					}
+				}
+			}
+		}
 		for _, s := range []string{"null", "{}", "[]", `{"type":"Point"}`, `{"type":"GeometryCollection","geometries":[null]}`, `{"type":"Feature","geometry":null}`, "",
 			`{"type":"Feature","geometry":{"type":"Point","coordinates":null}}`, `{"type":"FeatureCollection","features":[null]}`, `{"type":"FeatureCollection","features":null}`,
 			`{"type":"Polygon","coordinates":[null]}`, `{"type":"MultiPolygon","coordinates":[[null]]}`, `{"type":null,"coordinates":null}`, "true", "0", `""`} {
